@@ -123,6 +123,38 @@ def c14(ck):
                                             "config": cfg, "counter": c, "workers": w})
                         break
     ck.extra["traces_validated_against_impl"] = nprobe
+    # the same two clauses through varlink::listen itself (the configuration has to reach the pool as given): overlapping
+    # long-lived connections; the last one is short, so when it is served shows whether it had to wait
+    ok3, log3 = build_harness(["h_service"])
+    if not ok3:
+        ck.tie_broken.append("harness does not build: " + log3[-300:])
+        return
+    from svcgen import DEFAULT_SVC, make, enc
+    okr = hx(enc(make("ok", "-", 1)))
+    sc = [("listen_1_4_three_overlapping", 1, 4, ["0:1500:" + okr, "150:1500:" + okr, "300:100:" + okr], "served_early"),
+          ("listen_1_2_two_overlapping", 1, 2, ["0:1200:" + okr, "200:100:" + okr], "served_early"),
+          ("listen_3_2_third_waits", 3, 2, ["0:1500:" + okr, "150:1500:" + okr, "300:100:" + okr], "waits"),
+          ("listen_2_1_second_waits", 2, 1, ["0:1200:" + okr, "250:100:" + okr], "waits")]
+    lines = ["l%d listen_run 0 2600 %d %d %s | %s" % (i, ini, mx, DEFAULT_SVC.tokens(), " ".join(h)) for i, (_, ini, mx, h, _) in enumerate(sc)]
+    res = run_lines(harness_bin("h_service"), lines, shards=len(lines), timeout=300, env=dict(ENV, VH_TMP=os.path.join(BUILD, "tmp")))
+    for i, (name, ini, mx, h, kind) in enumerate(sc):
+        r = res.get("l%d" % i, "")
+        ck.case("listen|" + name)
+        ck.count("listen_level_scenarios")
+        f = fields(r)
+        conns = [] if f.get("conns", "-") == "-" else f["conns"].split(";")
+        if len(conns) != len(h) or not all(c.startswith("conn@") for c in conns):
+            ck.failures.append({"what": "listen-level pool scenario did not run", "scenario": name, "result": r[:300]})
+            continue
+        closed = [int(c.split(":")[1].split("@")[1]) for c in conns]
+        first_end = int(h[0].split(":")[0]) + int(h[0].split(":")[1])
+        last = closed[-1]
+        desc = {"scenario": name, "initial_worker_threads": ini, "max_worker_threads": mx, "connections (connect ms : hold ms)": [x.rsplit(":", 1)[0] for x in h],
+                "closed_at_ms": closed}
+        if kind == "served_early" and last > first_end - 300:
+            ck.failures.append(dict(desc, what="an accepted connection had to wait for another one to finish although fewer than max_worker_threads were in service"))
+        if kind == "waits" and last < first_end - 200:
+            ck.failures.append(dict(desc, what="more than max_worker_threads connections were served concurrently"))
 
 
 def c15(ck):
@@ -160,6 +192,10 @@ def c15(ck):
     sc.append(("idle1_stopflag_conn_midwindow", 1, 60000, 1, 4, ["700:100:" + ok_req], {"ret": "Timeout", "not_before": 1650, "not_after": 3300, "complete": 1}))
     sc.append(("idle2_stopflag_two_conns", 2, 60000, 1, 4, ["1500:100:" + ok_req, "2600:100:" + ok_req],
                {"ret": "Timeout", "not_before": 4550, "not_after": 6300, "complete": 2}))
+    # a peer that disconnects in the middle of a message does not keep the server busy: the idle timeout still fires
+    half = hx(enc(make("ok", "-", 1)) + enc(make("ok", "-", 2))[:25])
+    sc.append(("idle1_peer_leaves_mid_message", 1, None, 1, 4, ["100:50:" + half], {"ret": "Timeout", "not_before": 1100, "not_after": 3000, "complete": 0}))
+    sc.append(("stop_peer_leaves_mid_message", 0, 700, 1, 4, ["100:50:" + half], {"ret": "ok", "not_before": 690, "not_after": 1400, "complete": 0}))
     if not quick:
         for i in range(12):
             at = rng.randint(50, 900)
@@ -319,6 +355,8 @@ def c13(ck):
                                     "got": got.decode("utf-8", "replace")[:600], "expected": want_alone.decode("utf-8", "replace")[:600]})
             if mid in model and canon_reply_stream(unhx(fields(model[mid]).get("out", "-"))) != canon_reply_stream(got):
                 ck.tie_broken.append("model/implementation disagree for a concurrent client: stream %s" % s.hex()[:300])
+    from check_service import c13_reference_multiplex
+    c13_reference_multiplex(ck)
 
 
 CHECKS = {"C13": c13, "C14": c14, "C15": c15}
